@@ -612,7 +612,7 @@ theorem connGo_begin (n1 n2 : Vit.Node) (hl : n1.l = n2.l) (hc : n1.c = n2.c) :
           by_cases hlt : nc < m
           · rw [if_pos hlt] at h
             rw [if_pos hlt]
-            obtain ⟨pe', h1, h2⟩ := connGo_begin n1 n2 hl hc rest (i + 1) nc (Total.asU16 n1.b) (Total.asU16 i)
+            obtain ⟨pe', h1, h2⟩ := connGo_begin n1 n2 hl hc rest (i + 1) nc (Total.asU16 n1.b) (Total.asU32 i)
               (Total.asU16 n2.b) c pe pi h
             refine ⟨pe', h1, ?_⟩
             rcases h2 with h2 | ⟨_, h2⟩
@@ -687,7 +687,7 @@ theorem eos_sim (v : Total.SplitV) (lv : EditM.LenV) (D : Dict) (rows : Total.Ro
         obtain ⟨rfl, rfl, rfl⟩ := h
         unfold Total.connectNode at hc
         obtain ⟨pe0, h1, h2⟩ := connGo_begin Total.addI32 Total.I32_MAX D.conn (Total.eosNode n) (Total.eosNode 0) rfl rfl
-          row 0 Total.I32_MAX 65535 65535 65535 c' pe' pi' hc
+          row 0 Total.I32_MAX 65535 Total.idxNone 65535 c' pe' pi' hc
         have hpe : pe' = Total.asU16 (Total.asU16 n) := by
           rcases h2 with h2 | ⟨h2, _⟩
           · exact h2
